@@ -48,8 +48,44 @@ def jobs_for(pid, tier, seed):
         J.append(mfam('2 tasks, 3 hooks ok/err/panic', ['C02'], 4 if q else 6, tasks=2, hooks=H3, env={'create': OE, 'recycle': OE, 'hook': ('ok', 'err', 'panic')}))
         J.append(mfam('2 tasks, per-call timeouts', ['C02'], 4 if q else 6, tasks=2, env={'create': OEP, 'recycle': OEP},
                       timeout_variants=[None, ('pos', 'pos', 'pos'), ('zero', None, None)]))
+    elif pid == 'C03':
+        E = {'create': ALLO, 'recycle': ALLO, 'hook': ALLO}
+        J.append(mfam('1 task, 3 hooks (sync/async/sync), every outcome, cancel at every await', ['C03'], 6 if q else 9, tasks=1, hooks=H3, env=E, take=False, probe=False))
+        J.append(mfam('1 task, 3 hooks (async/sync/async), every outcome', ['C03'], 6 if q else 9, tasks=1, hooks=H3A, env=E, take=False, probe=False))
+        J.append(mfam('1 task, 6 hooks, ok/pending/panic', ['C03'], 5 if q else 7, tasks=1, hooks=H6, env={'create': ('ok', 'pending', 'panic'), 'recycle': ('ok', 'pending', 'panic'), 'hook': ('ok', 'pending', 'panic')}, take=False, probe=False))
+        J.append(mfam('1 task, enclosing per-call timeouts fire at every await', ['C03'], 5 if q else 8, tasks=1, hooks=H3A, env={'create': OEP, 'recycle': OEP, 'hook': OEP},
+                      timeout_variants=[('pos', 'pos', 'pos')], take=False, probe=False))
+        J.append(mfam('2 tasks, waiter + cancel, global invariants', ['C03', 'C01', 'C02', 'C11'], 5 if q else 7, tasks=2, hooks=(('pre_recycle', 'async'),), env={'create': OEP, 'recycle': OEP, 'hook': ('ok', 'pending')}, take=False))
+    elif pid == 'C04':
+        E = {'create': OE, 'recycle': OE, 'hook': OE}
+        J.append(mfam('1 task, 6 hooks (2 per kind, sync+async), ok/err', ['C04'], 6 if q else 8, tasks=1, hooks=H6, env=E, cancel=False, take=False, probe=False))
+        J.append(mfam('2 tasks, 3 hooks, ok/err/pending', ['C04'], 5 if q else 7, tasks=2, hooks=H3, env={'create': OEP, 'recycle': OEP, 'hook': OEP}, take=False, probe=False))
+        J.append(mfam('1 task, no hooks, ok/err, long histories', ['C04'], 8 if q else 11, tasks=1, env=E, cancel=False, take=False, probe=False))
+        J.append(mfam('2 tasks, per-call timeouts, 3 hooks async', ['C04'], 4 if q else 6, tasks=2, hooks=H3A, env={'create': OEP, 'recycle': OEP, 'hook': OEP},
+                      timeout_variants=[('pos', 'pos', 'pos')], take=False, probe=False))
+        J.append(mfam('2 tasks, hooks panic', ['C04'], 5 if q else 7, tasks=2, hooks=H3, env={'create': OE, 'recycle': OE, 'hook': ('ok', 'err', 'panic')}, take=False, probe=False))
+    elif pid == 'C08':
+        J.append(mfam('1 task... 3 tasks returning in any order, fifo+lifo, rejects', ['C08'], 6 if q else 8, tasks=3, env={'create': ('ok',), 'recycle': OE}, cancel=False, probe=False))
+        J.append(mfam('2 tasks + retain, fifo+lifo', ['C08'], 6 if q else 8, tasks=2, env={'create': ('ok',), 'recycle': OE}, ctl=('retain',), cancel=False, probe=False))
+        J.append(mfam('2 tasks, 3 hooks, ok/err', ['C08'], 5 if q else 7, tasks=2, hooks=H3, env={'create': OE, 'recycle': OE, 'hook': OE}, probe=False))
+        J.append(mfam('2 tasks + resize/close: user code only inside operations', ['C08'], 5 if q else 7, tasks=2, env={'create': OE, 'recycle': OE}, ctl=('resize', 'close', 'status'), probe=False))
+    elif pid == 'C11':
+        J.append(mfam('2 tasks, ok/err/pending/panic', ['C11'], 5 if q else 7, tasks=2, env={'create': OEPP, 'recycle': OEPP}, probe=False))
+        J.append(mfam('3 tasks, ok/err', ['C11'], 5 if q else 7, tasks=3, env={'create': OE, 'recycle': OE}, probe=False))
+        J.append(mfam('2 tasks, 3 hooks, ok/err/panic', ['C11'], 5 if q else 7, tasks=2, hooks=H3, env={'create': OE, 'recycle': OE, 'hook': ('ok', 'err', 'panic')}, probe=False))
+        J.append(mfam('2 tasks + retain/resize/close', ['C11'], 5 if q else 7, tasks=2, env={'create': OE, 'recycle': OE}, ctl=('retain', 'resize', 'close'), probe=False))
+        J.append(mfam('2 tasks, release profile (wrapping counters)', ['C11'], 5 if q else 7, tasks=2, env={'create': OEPP, 'recycle': OEPP}, probe=False, overflow='wrap'))
+    elif pid == 'C13':
+        J.append(mfam('1 task, 3 hooks, ok/err/pending, long histories', ['C13'], 7 if q else 10, tasks=1, hooks=H3, env={'create': OE, 'recycle': OEP, 'hook': OEP}, take=False, probe=False))
+        J.append(mfam('2 tasks, 3 hooks async, ok/err', ['C13'], 5 if q else 7, tasks=2, hooks=H3A, env={'create': OE, 'recycle': OE, 'hook': OE}, take=False, probe=False))
+        J.append(mfam('2 tasks + retain sees reported metrics', ['C13'], 6 if q else 8, tasks=2, env={'create': ('ok',), 'recycle': OE}, ctl=('retain',), cancel=False, take=False, probe=False))
+        J.append(mfam('1 task, recycle timeouts / cancellations', ['C13'], 6 if q else 9, tasks=1, hooks=(('pre_recycle', 'async'), ('post_recycle', 'async')), env={'create': ('ok',), 'recycle': OEP, 'hook': OEP},
+                      timeout_variants=[None, (None, None, 'pos')], take=False, probe=False))
     else:
         raise KeyError(pid)
+    if pid in ALL_M:
+        nv = 2 if q else 8
+        for k in range(nv): J.append(vfam(25 if q else 60, k * 1000))
     for i, j in enumerate(J):
         j['seed'] = seed; j['tier'] = tier; j['budget'] = 150 if q else 1500
     return J
@@ -60,13 +96,16 @@ def run(job):
     if job['kind'] == 'managed_bse':
         cfg = job['cfg']
         B = w_managed.ManagedBSE(prog, cfg)
+        if cfg.get('overflow'): B.M.overflow_mode = cfg['overflow']
         init = B.init_states()
         R = explore.bfs(B, init, cfg['depth'], time_budget=job['budget'], seed=job['seed'], stop_on_violation=False)
         S = B.M.stats
         vios = []
         for v, st in R.violations:
             d = dict(v); d['trace'] = [list(map(str, e)) for e in st.log if e[0] in ('init', 'act', 'env')]
-            d['pc'] = [c.sexpr() for c in st.pc]; d['family'] = job['name']; d['cfg'] = _jsonable(cfg)
+            d['pc'] = [c.sexpr() for c in st.pc]; d['family'] = job['name']; d['cfg'] = _jsonable(cfg); d['crates'] = job['crates']
+            if 'probe_log' in d:
+                d['cfg']['timeout_variants'] = list(d['cfg'].get('timeout_variants') or [None]) + [['zero', None, None]]
             vios.append(d)
         return {
             'states': R.states, 'transitions': R.transitions, 'merged': R.merged, 'max_depth': R.max_depth, 'complete': R.complete,
@@ -80,7 +119,47 @@ def run(job):
                        'mode': 'thread' if B.cfg['thread_mode'] else 'task', 'time_budget_s': job['budget']},
             'summary': f'{R.states} states, {R.transitions} transitions, depth {R.max_depth}{"" if R.complete else " (budget reached)"}, {len(vios)} violation(s)',
         }
+    if job['kind'] == 'validate_managed':
+        return validate_managed(prog, job)
     raise KeyError(job['kind'])
+
+
+def validate_managed(prog, job):
+    """translation validation: random concrete traces executed by the engine and by the real crate must agree step by step"""
+    import random
+    from . import replay
+    n = job['cfg']['traces']; bad = []; steps = 0; samples = []
+    t0 = time.time()
+    for k in range(n):
+        rng = random.Random(job['seed'] * 100003 + job['cfg']['offset'] + k)
+        hooks = rng.choice([(), H3, H3A, H6])
+        cfg = {'tasks': rng.choice([1, 2, 3]), 'env': {'create': ALLO, 'recycle': ALLO, 'hook': ALLO, 'pred': ('keep', 'remove', 'panic')},
+               'hooks': hooks, 'oracles': (), 'ctl': ('status', 'retain', 'resize', 'close'), 'max_ctl': 3,
+               'max_size_concrete': rng.choice([0, 1, 2, 3]), 'lifo': rng.choice([False, True]),
+               'timeout_variants': [None, ('zero', None, None), ('pos', 'pos', 'pos'), (None, 'zero', 'zero')],
+               'runtime': rng.choice([True, True, False])}
+        B = w_managed.ManagedBSE(prog, cfg)
+        st = B.init_states()[0]
+        for i in range(rng.choice([6, 10, 14])):
+            acts = B.actions(st)
+            if not acts: break
+            st = rng.choice(B.apply(st, rng.choice(acts)))
+        log = [list(map(str, e)) for e in st.log if e[0] in ('init', 'act', 'env')]
+        tr = replay.build_trace(_jsonable(cfg), log, {'max_size': cfg['max_size_concrete']})
+        nat = replay.run_native(tr); eng, _ = replay.run_engine(prog, tr)
+        d = replay.compare(nat, eng); steps += len(nat)
+        if d: bad.append({'trace': log, 'diff': d})
+        if k < 2: samples.append({'trace': [e for e in log if e[0] != 'env'][:12]})
+        if time.time() - t0 > job['budget']: n = k + 1; break
+    if bad:
+        raise RuntimeError(f'translation validation failed on {len(bad)} of {n} traces: {bad[0]["diff"]} -- trace {bad[0]["trace"]}')
+    return {'validated': n, 'states': 0, 'transitions': 0, 'violations': [], 'samples': samples, 'complete': True,
+            'summary': f'{n} random traces ({steps} steps) agree between engine and real crate', 'dump_s': prog.dump_s,
+            'bounds': {'traces': n, 'length': '6..14 actions', 'max_size': '0..=3'}}
+
+
+def vfam(n, offset=0):
+    return {'name': f'translation validation ({n} traces, offset {offset})', 'kind': 'validate_managed', 'cfg': {'traces': n, 'offset': offset}, 'crates': ['deadpool']}
 
 
 def _jsonable(x):
